@@ -352,6 +352,27 @@ class Run:
         return self.F.root_of(body).npath
 
     # -- K1
+    def owner_ok(self, root, allowed, depth=3, _seen=None):
+        """`root` is in the allowed set — or it is a helper reachable only through the allowed set: every workspace call of it
+        (there is at least one) sits in a function that is itself allowed, up to `depth` levels.  Extracting part of an owner
+        into a private helper, or inlining it back, does not change who performs the operation."""
+        if pat_match(root, allowed):
+            return True
+        if depth <= 0:
+            return False
+        _seen = _seen or set()
+        if root in _seen:
+            return False
+        _seen = _seen | {root}
+        sites = [(b, c) for (b, c) in self.F.callers().get(norm(root), []) if c.get("ncallee") == norm(root) or c.get("ngen") == norm(root)]
+        if not sites:
+            return False
+        # a function whose address is taken (passed as a value) can be called from anywhere
+        rb = [b for b in self.F.by_npath.get(norm(root), [])]
+        if any(b.trait for b in rb):
+            return False
+        return all(self.owner_ok(self.root_path(b), allowed, depth - 1, _seen) for b, c in sites)
+
     def who_may_call(self, rule, callee_pats, allowed, floor=1, descr=None, ignore_crates=(), ignore_macro=()):
         """Every call site whose resolved (or generic) callee matches must be in a function whose root
         item matches `allowed`."""
@@ -360,7 +381,7 @@ class Run:
         for b in self.F.bodies.values():
             if b.crate in ignore_crates:
                 continue
-            for c in b.calls:
+            for c in b.calls_raw:
                 if callee_matches(c, callee_pats):
                     k = (b.path, c["bb"])
                     if k in seen:
@@ -370,7 +391,7 @@ class Run:
         bad = 0
         for b, c in sites:
             root = self.root_path(b)
-            if not pat_match(root, allowed):
+            if not self.owner_ok(root, allowed):
                 bad += 1
                 self.viol(rule, "caller:%s->%s" % (root, c["ncallee"]),
                           "%s is called from %s, which is not in the allowed set" % (c["ncallee"], root), b, c["line"])
@@ -385,13 +406,13 @@ class Run:
     def who_may_write(self, rule, adt, field, allowed, floor=1, descr=None):
         sites = []
         for b in self.F.bodies.values():
-            for m in b.field_mut:
+            for m in b.field_mut_raw:
                 if norm(m["adt"]) == adt and m["field"] == field:
                     sites.append((b, m))
         bad = 0
         for b, m in sites:
             root = self.root_path(b)
-            if not pat_match(root, allowed):
+            if not self.owner_ok(root, allowed):
                 bad += 1
                 self.viol(rule, "writer:%s.%s<-%s" % (adt, field, root),
                           "field %s.%s is mutated (%s) in %s, not in the allowed set" % (adt, field, m["how"], root), b, m["line"])
@@ -405,7 +426,7 @@ class Run:
     def writers_of(self, adt, field):
         out = {}
         for b in self.F.bodies.values():
-            for m in b.field_mut:
+            for m in b.field_mut_raw:
                 if norm(m["adt"]) == adt and m["field"] == field:
                     out.setdefault(self.root_path(b), []).append((b, m))
         return out
@@ -416,13 +437,13 @@ class Run:
         for b in self.F.bodies.values():
             if b.mac in ignore_macro:
                 continue
-            for a in b.aggregates:
+            for a in b.aggregates_raw:
                 if a["kind"] == "adt" and norm(a["adt"]) == adt and (variant is None or a["variant"] == variant):
                     sites.append((b, a))
         bad = 0
         for b, a in sites:
             root = self.root_path(b)
-            if not pat_match(root, allowed):
+            if not self.owner_ok(root, allowed):
                 bad += 1
                 self.viol(rule, "constructor:%s%s<-%s" % (adt, "::" + variant if variant else "", root),
                           "%s%s is constructed in %s, not in the allowed set" % (adt, "::" + variant if variant else "", root),
@@ -467,6 +488,23 @@ class Run:
                     cut |= wacc
                     if via:
                         details.append({"guard": gd.label, "via_wrapper": via})
+            for gd in group:
+                # the guard as the predicate of a filtering combinator (`.filter(|x| …)`, `.find(..)`, `.any(..)`)
+                try:
+                    pn, pacc = _predicate_closure_edges(self.F, body, gd)
+                except Exception:
+                    pn, pacc = 0, set()
+                if pacc:
+                    nsites += pn
+                    cut |= pacc
+                    details.append({"guard": gd.label, "as_predicate_closure": pn})
+            if len(group) > 1:
+                # an any-of group may have been extracted as a whole: a helper whose accepting returns are each cut by one of the group
+                wn, wacc, via = _wrapper_edges(self.F, body, list(group))
+                nsites += wn
+                cut |= wacc
+                if via:
+                    details.append({"guard": " or ".join(gd.label for gd in group), "via_wrapper": via})
             label = " or ".join(gd.label for gd in group)
             if not cut:
                 ok = False
@@ -611,6 +649,19 @@ def _must_call(self, rule, item, pats, descr, floor=1):
 Run.fmt_in = _fmt_in
 Run.no_calls = _no_calls
 Run.must_call = _must_call
+
+
+def final_edges(g, edges):
+    """Of the accepting (or rejecting) edges of a guard, those after which the verdict is not decided again: when a verdict is first
+    stored in a bool (`let hit = matches!(..)`) and branched on later, the tracker reports both the comparison's own edge and the later
+    branch; only from the later one does "what follows" mean "what follows on the accepted side"."""
+    edges = list(edges)
+    out = []
+    for (s, d) in edges:
+        r = g.reach((d,))
+        if not any((s2, d2) != (s, d) and s2 in r for (s2, d2) in edges):
+            out.append((s, d))
+    return out or edges
 
 
 def _must_pass(self, rule, fn, required, descr=None, from_blocks=None, exits="return"):
@@ -1145,18 +1196,22 @@ _WRAP_CACHE = {}
 
 
 def _wrapper_edges(F, body, gd):
-    """(sites, accepting edges, helper names): calls in `body` to same-crate helpers that enforce `gd` on all their accepting returns."""
-    if not isinstance(gd, CallGuard) or gd.arg_pred is not None:
+    """(sites, accepting edges, helper names): calls in `body` to same-crate helpers that enforce `gd` on all their accepting returns.
+    `gd` may be a list of guards (an any-of group): then every accepting return of the helper is cut by one of them."""
+    gds = [x for x in (gd if isinstance(gd, (list, tuple)) else [gd]) if isinstance(x, CallGuard) and x.arg_pred is None]
+    if not gds:
         return 0, set(), []
     prep(body)
     acc, n, via = set(), 0, []
     seen = set()
+    allpats = [p for x in gds for p in x.pats]
+    label = " or ".join(x.label for x in gds)
     for blk in body.blocks:
         t = blk["term"]
         if t["k"] != "call" or blk["cleanup"]:
             continue
         nc = t["ncallee"] or ""
-        if nc in seen or not nc or callee_matches(t, gd.pats):
+        if nc in seen or not nc or callee_matches(t, allpats):
             continue
         seen.add(nc)
         cands = [h for h in F.by_npath.get(nc, []) if h.crate == body.crate and h.kind != "closure"]
@@ -1168,39 +1223,130 @@ def _wrapper_edges(F, body, gd):
             kids = [c for c in F.children.get(hb.path, []) if c.kind == "closure"]
             if len(kids) == 1:
                 inner = kids[0]
-        key = (inner.path, gd.pats, gd.steps, id(F))
+        key = (inner.path, tuple((x.pats, x.steps) for x in gds), id(F))
         if key not in _WRAP_CACHE:
             res = None
             try:
                 prep(inner)
-                n2, acc2, _ = gd.edges(inner)
+                acc2 = set()
+                for x in gds:
+                    acc2 |= x.edges(inner)[1]
                 if acc2:
                     g = cfg_of(inner)
                     free = g.reach((0,), cut=acc2)
                     for kind in ("Ok", "true", "Some"):
                         sinks = set(RetSink(kind).blocks(inner))
                         fwd = {b["id"] for b in inner.blocks if b["term"]["k"] == "call" and b["term"]["d"] == [0] and not b["cleanup"]
-                               and not callee_matches(b["term"], gd.pats)}
+                               and not callee_matches(b["term"], allpats)
+                               and not (b["term"].get("ngen") or b["term"].get("ncallee") or "").endswith("FromResidual::from_residual")}   # `?`: an error exit
                         if sinks and not ((sinks | fwd) & free):
                             res = (kind,)
                             break
-                    if res is None and not any(RetSink(k).blocks(inner) for k in ("Ok", "Some")):
+                    if res is None and len(gds) == 1 and not any(RetSink(k).blocks(inner) for k in ("Ok", "Some")):
                         # bool helper returning the verdict itself
                         dummy = Run.__new__(Run)
                         dummy.F, dummy.violations, dummy.instances, dummy.prop = F, [], [], "wrap"
-                        if _bool_verdict(dummy, "wrap", inner, gd, "wrap", emit=False):
+                        if _bool_verdict(dummy, "wrap", inner, gds[0], "wrap", emit=False):
                             res = ("true",)
             except Exception:
                 res = None
             _WRAP_CACHE[key] = res
         steps = _WRAP_CACHE[key]
         if steps:
-            wn, wacc, _ = CallGuard([nc], steps, gd.label).edges(body)
+            wn, wacc, _ = CallGuard([nc], steps, label).edges(body)
             if wacc:
                 n += wn
                 acc |= wacc
                 via.append(nc.split("::")[-1])
     return n, acc, via
+
+
+PREDICATE_TAKERS = (("Option::filter", "Some"), ("Iterator::find", "Some"), ("Iterator::position", "Some"), ("Iterator::rposition", "Some"),
+                    ("Iterator::any", "true"), ("Option::is_some_and", "true"), ("Result::is_ok_and", "true"))
+
+
+def _captured_seeds(parent, cl, parent_locals):
+    """locals of closure `cl` that read a captured variable whose value, in `parent`, is one of `parent_locals`"""
+    prep(parent)
+    prep(cl)
+    caps = set()
+    for blk in parent.blocks:
+        for st in blk["stmts"]:
+            rv = st["rv"]
+            if rv["k"] == "agg" and rv.get("ak") in ("closure", "coroutine", "coroutine_closure") and rv.get("adt") == cl.path:
+                for k, o in enumerate(rv["ops"]):
+                    l = op_local(o)
+                    if l is not None and l in parent_locals:
+                        caps.add(".upv%d" % k)
+    out = set()
+    if not caps:
+        return out
+    for blk in cl.blocks:
+        for st in blk["stmts"]:
+            rv = st["rv"]
+            pl = rv["a"][1] if rv["k"] == "use" and rv["a"][0] in ("cp", "mv") else rv.get("p") if rv["k"] == "ref" else None
+            if pl and any(e in caps for e in pl[1:]) and len(st["d"]) == 1:
+                out.add(st["d"][0])
+        t = blk["term"]
+        if t["k"] == "call":
+            for a in t["args"]:
+                if a[0] in ("cp", "mv") and any(e in caps for e in a[1][1:]) and len(t.get("d") or []) == 1:
+                    pass
+    return out
+
+
+def _guard_for_closure(gd, parent, cl):
+    """the guard as it reads inside a closure of `parent`: sources may be captured variables"""
+    if isinstance(gd, CmpGuard):
+        def lift(src):
+            def f(b, src=src):
+                own = set(src(b))
+                if b is cl:
+                    try:
+                        pl = Taint(parent, through=gd.through).closure(src(parent))
+                    except Exception:
+                        pl = set()
+                    own |= _captured_seeds(parent, cl, pl)
+                return own
+            return f
+        return CmpGuard(lift(gd.src_a), lift(gd.src_b), list(gd.required), gd.label, through=gd.through, extra=gd.extra, close=True, allow_arith=gd.allow_arith)
+    return gd
+
+
+def _predicate_closure_edges(F, body, gd):
+    """Accepting edges where the guard is the predicate of a filtering combinator: `opt.filter(|x| guard(x))`, `it.find(|x| guard(x))`,
+    `it.any(|x| guard(x))` — the combinator yields Some / true only for an element on which the closure, hence the guard, held."""
+    if getattr(gd, "arg_pred", None) is not None:
+        return 0, set()
+    prep(body)
+    tr = Tracker(body)
+    n = 0
+    for blk in body.blocks:
+        t = blk["term"]
+        if t["k"] != "call" or blk["cleanup"] or len(t.get("d") or []) != 1:
+            continue
+        nm = t.get("ngen") or t.get("ncallee") or ""
+        kind = next((k for suf, k in PREDICATE_TAKERS if nm.endswith(suf)), None)
+        if kind is None:
+            continue
+        for cl in closures_passed(F, body, t):
+            try:
+                g2 = _guard_for_closure(gd, body, cl)
+                dummy = Run.__new__(Run)
+                dummy.F, dummy.violations, dummy.instances, dummy.prop = F, [], [], "pred"
+                if not _bool_verdict(dummy, "pred", cl, g2, "pred", emit=False):
+                    continue
+            except Exception:
+                continue
+            n += 1
+            if kind == "true":
+                tr.seed_bool(t["d"][0], True)
+            else:
+                tr.seed_call_result(t["d"][0], (kind,), False)
+    if not n:
+        return 0, set()
+    tr.run()
+    return n, set(tr.accept)
 
 
 def loops_over(F, body, source_pred):
